@@ -38,6 +38,19 @@ Theorem C12_halton_radical_inverse : forall N bs, (length bs <= 300)%nat ->
 Proof. exact halton_points. Qed.
 Print Assumptions C12_halton_radical_inverse.
 
+(* selected rows: `build_halton_at N bs idxs` (the closed form of single rows, halton_row_at, which the correspondence
+   evaluates for large N where only selected points are compared) returns exactly the rows with the listed point numbers
+   (counted from 1) of `build_halton N bs`, the design the theorem above speaks about; it returns iff build_halton does
+   and every listed number is in 1..N *)
+Theorem C12_halton_selected_rows : forall N bs idxs,
+  (forall rows, build_halton N bs = Some rows -> Forall (fun i => (1 <= i <= N)%nat) idxs ->
+     build_halton_at N bs idxs = Some (map (fun i => nth (i - 1) rows []) idxs)) /\
+  (forall sel, build_halton_at N bs idxs = Some sel ->
+     exists rows, build_halton N bs = Some rows /\ Forall (fun i => (1 <= i <= N)%nat) idxs /\
+                  sel = map (fun i => nth (i - 1) rows []) idxs).
+Proof. exact halton_selected_rows. Qed.
+Print Assumptions C12_halton_selected_rows.
+
 (* the 2/3-wheel sieve and the enlargement loop of halton() deliver the first n primes (n <= 300) *)
 Theorem C12_primes_correct : forall n, (n <= 300)%nat ->
   exists base, halton_base n = Some base /\ first_primes n base.
@@ -109,6 +122,13 @@ Example C12_halton_example :
   option_map (map (map Qred)) (build_halton 4 [(0, 1); (-(1), 1); (10, 20)]) =
     Some [[1 # 2; -(1 # 3); 12]; [1 # 4; 1 # 3; 14]; [3 # 4; -(7 # 9); 16]; [1 # 8; -(1 # 9); 18]] /\
   Qred (phi 3 5) = 7 # 9 /\ Qred (phi 2 6) = 3 # 8.
+Proof. vm_compute. repeat split. Qed.
+
+(* point 243 = 3^5 of a 243-point design, bases 2 and 3: 243 = 11110011_2, 243 = 100000_3 (radical inverse 1/729) *)
+Example C12_halton_selected_example :
+  option_map (map (map Qred)) (build_halton_at 243 [(0, 1); (0, 729)] [1; 242; 243]%nat) =
+    Some [[1 # 2; 243]; [79 # 256; 726]; [207 # 256; 1]] /\
+  build_halton_at 243 [(0, 1); (0, 729)] [244%nat] = None /\ build_halton_at 243 [(0, 1); (0, 729)] [0%nat] = None.
 Proof. vm_compute. repeat split. Qed.
 
 Example C12_grid_example :
